@@ -45,6 +45,8 @@ def gen_case(rng, maxops):
             ops.append('z%d' % rng.choice([0, 0, 1, 2, 3, len(live), len(live) + 1, 9, 20, 47]))
             if ops[-1] == 'z0': live.clear()
         else: ops.append('c')
+    if rng.random() < .5:
+        ops += [rng.choice('gm') + str(k) for k in keys[:12]]      # probe sequences of all keys
     return hs + '|' + ' '.join(ops)
 
 
@@ -89,6 +91,9 @@ def gen_dense(rng, maxops):
         else:
             ops.append('z%d' % rng.choice([len(live), hi, hi + 1]))
             if ops[-1] == 'z%d' % (hi + 1) and n != 23: break    # table grows: leave the band, stop
+    # look every key up at the end: the iteration in the harness's dump reaches values through
+    # Table_Get's pointer-into-the-table shortcut, so only explicit get/mem walk the probe sequence
+    ops += ['g%d' % k for k in keys]
     return hs + '|' + ' '.join(ops)
 
 
@@ -227,7 +232,7 @@ def run(ctx):
                        'Int keys (identity hash); a second stream ("dense") fills a table of 5, 11 or 23 slots to the highest count '
                        'that keeps its size, with homes drawn from a window of 1-4 adjacent slots (anywhere, also across the array end), '
                        'then removes and re-inserts at constant count, so that displacement chains, backward shifts across the wrap and '
-                       'distance-stopped lookups occur in most cases; a case is non-trivial when at least one entry sits away from its '
+                       'distance-stopped lookups occur in most cases, and ends with a get of every key (present or not); a case is non-trivial when at least one entry sits away from its '
                        'home slot (displacement happened); distinct = distinct implementation transcripts; every step of every case '
                        'compares outcome, len and the iterated bindings with the finite map (oracle) and the whole slot array with the '
                        'extracted model (correspondence)')
